@@ -13,7 +13,7 @@ Local Open Scope Z_scope.
 
 (* CREATE[ OR REPLACE] <header: strict tokens, balanced parentheses> BEGIN <Blk> END ; <eos>
    Blk (Split/Level.v): the bracket language over ( ), BEGIN..END, IF/WHILE/FOR .. END IF/END WHILE/
-   END FOR, CASE..END (not nested in itself), semicolons and neutral tokens (incl. DECLARE inside a
+   END FOR, CASE..END (NESTED to any depth since the fix of finding F39), semicolons and neutral tokens (incl. DECLARE inside a
    block, LOOP/END LOOP without FOR/WHILE, ...). *)
 Theorem C17_create_unit : forall cr hdr bg body en e,
   is_create_ddl cr = true ->
@@ -111,3 +111,10 @@ Theorem C17_refuted_dot_case :
   /\ nstmts (tx "CREATE PROCEDURE p() BEGIN c := NEW.end; END; select 2; select 3") = Ok 3%nat.
 Proof. split; vm_compute; reflexivity. Qed.
 Print Assumptions C17_refuted_dot_case.
+
+(* F39 (FIXED in /repo: _in_case was a flag, so the END of an inner CASE expression closed the flag and the END of the outer
+   one was booked as a block END; it is a counter now and C17_create_unit covers CASE expressions nested to any depth):
+   the former witness splits correctly *)
+Theorem C17_nested_case_fixed :
+  nstmts (tx "CREATE PROCEDURE p() BEGIN SET x = CASE WHEN b THEN CASE WHEN c THEN 1 END END; WHILE r DO y := 1; END WHILE; END; select 2") = Ok 2%nat.
+Proof. vm_compute. reflexivity. Qed.
